@@ -59,6 +59,7 @@ type ev =
   | Init
   | Rx of rxpacket * n list * n
   | Sub of dmsg
+  | Crash of rxpacket * n list * n * int * int list   (* cut after k operations (k < 0: not cut), operations that fail *)
 
 let parse_event s =
   match String.split_on_char ',' s with
@@ -68,6 +69,12 @@ let parse_event s =
                rx_gw = { g_eui = hexn gw; g_host = N0; g_port = N0; g_clock = n_of_int (int_of_string clock); g_ver = n_of_int 2 };
                rx_ts = n_of_int (int_of_string ts) } in
     Rx (rx, (if appnonce = "" then [N0; N0; N0] else bytes_of_hex appnonce), hexn newaddr)
+  | "X" :: raw :: gw :: ts :: datr :: rssi :: ch :: clock :: appnonce :: newaddr :: k :: fails :: _ ->
+    let rx = { rx_raw = bytes_of_hex raw; rx_radio = mk_radio datr (int_of_string rssi) (int_of_string ch);
+               rx_gw = { g_eui = hexn gw; g_host = N0; g_port = N0; g_clock = n_of_int (int_of_string clock); g_ver = n_of_int 2 };
+               rx_ts = n_of_int (int_of_string ts) } in
+    Crash (rx, (if appnonce = "" then [N0; N0; N0] else bytes_of_hex appnonce), hexn newaddr, int_of_string k,
+           (if fails = "" then [] else List.map int_of_string (String.split_on_char '+' fails)))
   | ["S"; eui; created; port; ack; data] ->
     Sub { m_eui = hexn eui; m_data = bytes_of_hex data; m_port = n_of_int (int_of_string port); m_ack = (ack = "1");
           m_created = n_of_int (int_of_string created); m_sent = N0; m_acktime = N0; m_fcntup = N0 }
@@ -77,6 +84,39 @@ let out_strings outs =
   let ds = List.filter_map (function ODown dl -> Some (Printf.sprintf "%s:%d:%s:%d" (hex_of_bytes dl.dl_raw) (int_of_n dl.dl_rx1delay) (hx dl.dl_gw.g_eui) (int_of_n dl.dl_gw.g_clock)) | _ -> None) outs in
   let ps = List.filter_map (function OPub p -> Some (Printf.sprintf "%s:%s:%s:%s" (hx p.pb_app) (hx p.pb_eui) (hex_of_bytes p.pb_payload) (hx p.pb_gw)) | _ -> None) outs in
   "D[" ^ String.concat ";" (List.sort compare ds) ^ "] P[" ^ String.concat ";" (List.sort compare ps) ^ "]"
+
+(* one frame handled operation by operation on the owning device's state (Model/Steps.v) *)
+let ocaml_string_of (cs : cstring) : string =
+  let rec go acc = function
+    | EmptyString -> acc
+    | String (Ascii (b0, b1, b2, b3, b4, b5, b6, b7), t) ->
+      let v = List.fold_left (fun a (b, w) -> if b then a + w else a) 0 [(b0,1);(b1,2);(b2,4);(b3,8);(b4,16);(b5,32);(b6,64);(b7,128)] in
+      go (acc ^ String.make 1 (Char.chr v)) t in
+  go "" cs
+let stepped (s : srv) rx an na k fails : srv * out list * string list =
+  let failsfn i = List.mem (int_of_nat i) fails in
+  let fuel = nat_of_int (if k < 0 then 100 else k) in
+  let run eui prog =
+    let st = dt_get s.s_tab eui in
+    let (st', outs) = prunf s.s_apps failsfn O fuel st prog [] in
+    let tr = List.map ocaml_string_of (trace s.s_apps failsfn O fuel st prog) in
+    ({ s with s_tab = dt_put s.s_tab eui st' }, outs, tr) in
+  let (s1, outs, tr) =
+    match decode (mk_slice rx.rx_raw []) with
+    | Ok f ->
+      let mt = int_of_n f.mtype in
+      if mt = 0 then begin
+        if List.length rx.rx_raw <> 23 then (s, [], [])
+        else run f.jr.jr_deveui (join_prog e d s.s_cfg f rx an na)
+      end else if mt = 2 || mt = 4 then begin
+        match List.filter (mic_ok e f rx.rx_raw) (dt_by_devaddr s.s_tab (devaddr_u32 f.f_devaddr)) with
+        | [dv] -> run dv.d_eui (uplink_prog e d f rx (S O) (n_of_int 1))
+        | [] -> (s, [], if k = 0 then [] else ["GetDevice"])
+        | _ -> failwith "stepped run with more than one matching device"
+      end else (s, [], [])
+    | _ -> (s, [], []) in
+  let s2 = if k < 0 then s1 else { s1 with s_tab = List.map (fun (eui, st) -> (eui, recover st)) s1.s_tab } in
+  (s2, outs, tr)
 
 (* per-step records handed to the property oracles *)
 type step = { ev : ev; pre : srv; post : srv; outs : out list; impl_obs : string }
@@ -99,6 +139,11 @@ let run_history g obs (judge : n list -> step list -> string) =
     | Rx (rx, an, na) ->
       let (s', outs) = rx_event e d s rx an na (n_of_int 1) in
       (s', (out_strings outs ^ " " ^ dump_all s' euis) :: lines, { ev; pre = s; post = s'; outs; impl_obs = io } :: steps, i + 1)
+    | Crash (rx, an, na, k, fails) ->
+      let (s', outs, tr) = stepped s rx an na k fails in
+      let downs_only = List.filter (function ODown _ -> true | _ -> false) outs in
+      let line = Str.global_replace (Str.regexp_string " P[]") " P[]" (out_strings downs_only) in
+      (s', (line ^ " " ^ dump_all s' euis ^ " ; trace{" ^ String.concat "," tr ^ "}") :: lines, { ev; pre = s; post = s'; outs; impl_obs = io } :: steps, i + 1)
     | Sub m ->
       let (s', ok) = submit s m in
       (s', (Printf.sprintf "S%s %s" (if ok then "1" else "0") (dump_all s' euis)) :: lines, { ev; pre = s; post = s'; outs = []; impl_obs = io } :: steps, i + 1))
